@@ -41,7 +41,24 @@ var (
 	concLog []ConcEvent
 	gids    sync.Map // runtime goroutine id -> scenario goroutine number
 	watch   map[int]bool
+
+	// chaos: in a concurrent scenario, yield the processor at pseudo-randomly chosen function entries (seeded), so that with
+	// GOMAXPROCS=1 the interleaving of the goroutines is decided at function granularity by the seed instead of by timing
+	chaosSeed uint64
+	chaosCtr  uint64
 )
+
+// SetChaos enables (seed != 0) or disables seeded yielding at function entries.
+func SetChaos(seed uint64) { chaosSeed = seed; atomic.StoreUint64(&chaosCtr, 0) }
+
+func mix(x uint64) uint64 {
+	x ^= x >> 33
+	x *= 0xff51afd7ed558ccd
+	x ^= x >> 33
+	x *= 0xc4ceb9fe1a85ec53
+	x ^= x >> 33
+	return x
+}
 
 // ConcEvent is a function entry (Exit = false) or exit event.
 type ConcEvent struct {
@@ -142,8 +159,16 @@ func Enter(fid int) {
 	if ctOn {
 		rec(fid, 'E', 0)
 	}
-	if concOn.Load() && watch[fid] {
-		conc(fid, false)
+	if concOn.Load() {
+		if chaosSeed != 0 {
+			n := atomic.AddUint64(&chaosCtr, 1)
+			if mix(n*0x9e3779b97f4a7c15+chaosSeed)%7 == 0 {
+				runtime.Gosched()
+			}
+		}
+		if watch[fid] {
+			conc(fid, false)
+		}
 	}
 }
 
